@@ -51,10 +51,47 @@ const maxDateLength = 64
 
 var errDateLength = errors.New("xmp: error date value too long")
 
+var errDateFormat = errors.New("xmp: error date value not of the form 2006-01-02T15:04:05")
+
+// dateShape reports whether buf starts with "2006-01-02T15:04:05" in digits
+// (time.Parse takes the hour with one digit as well).
+func dateShape(buf []byte) bool {
+	i := 0
+	digits := func(n int) bool {
+		for ; n > 0; n-- {
+			if i >= len(buf) || buf[i] < '0' || buf[i] > '9' {
+				return false
+			}
+			i++
+		}
+		return true
+	}
+	lit := func(c byte) bool {
+		if i < len(buf) && buf[i] == c {
+			i++
+			return true
+		}
+		return false
+	}
+	if !(digits(4) && lit('-') && digits(2) && lit('-') && digits(2) && lit('T') && digits(1)) {
+		return false
+	}
+	if i < len(buf) && buf[i] >= '0' && buf[i] <= '9' {
+		i++
+	}
+	return lit(':') && digits(2) && lit(':') && digits(2)
+}
+
 func parseDate(buf []byte) (t time.Time, err error) {
 	if len(buf) > maxDateLength {
 		// time.Parse quotes the whole value in its error, once per layout tried
 		return t, errDateLength
+	}
+	if !dateShape(buf) {
+		// every layout below starts this way; time.Parse would build an error
+		// that quotes layout and value for each of them, and a property may
+		// hold any number of values
+		return t, errDateFormat
 	}
 	str := string(buf)
 	if t, err = time.Parse("2006-01-02T15:04:05Z07:00", str); err != nil {
